@@ -177,4 +177,64 @@ for it in range(int(P.get("n", 4))):
     exc.normalize("mps_and_coeff")
     thermal_exact(exc, "EX", "a^dagger thermal(GS)", float(rs.choice([0.5, 2.0, 4.0])), int(rs.choice([1, 3])))
 
-emit({"tie": tie, "bad": bad[:10], "nbad": len(bad), "n_oracle": n_or})
+# ---------------------------------------------------------------------- exact integer data for the purified-state theorems
+def int_mps(model, qn, m, r):
+    np.random.seed(int(r.randint(0, 2 ** 31 - 1)))
+    st = Mps.random(model, qn, m, percent=1.0)
+    for i in range(len(st)):
+        a = np.asarray(st[i].array)
+        st[i] = np.round(2.0 * a / max(np.abs(a).max(), 1e-300))
+    st.coeff = 1.0
+    return st
+
+
+def chain_of(mp):
+    return [{"d": int(np.asarray(m.array).shape[-1]), "t": np.asarray(m.array).astype(int).tolist()} for m in mp]
+
+
+def rank_one_int(psi, phi):
+    from renormalizer.mps.svd_qn import add_outer
+    o = MpDm.from_mps(psi)
+    for i, (a, b) in enumerate(zip(psi, phi)):
+        a, b = np.asarray(a.array), np.asarray(b.array)
+        o[i] = np.einsum("apb,cqd->acpqbd", a, b).reshape(a.shape[0] * b.shape[0], a.shape[1], b.shape[1], a.shape[2] * b.shape[2])
+    o.qn = [add_outer(np.array(q1), np.array(q2)).reshape(-1, q1.shape[1]) for q1, q2 in zip(psi.qn, phi.qn)]
+    o.coeff = 1.0
+    return o
+
+
+ints = []
+for it in range(int(P.get("n_int", 3))):
+    nsite = 3
+    basis = [ba.BasisHalfSpin(i) for i in range(nsite)]
+    smodel = Model(basis, [Op("Z", 0, 1.0)])
+    psi_i = int_mps(smodel, 0, 2, rs)
+    dm = MpDm.from_mps(psi_i)
+    rec = {"from_mps": {"chain": chain_of(psi_i), "pdims": [2] * nsite, "dense": np.asarray(dm.todense()).astype(int).tolist()}}
+    # purification: |psi><phi| (off-diagonal structure), integer product-sum operator
+    phi_i = int_mps(smodel, 0, 2, rs)
+    rho = rank_one_int(psi_i, phi_i)
+    ops = Op("Z X", [0, 1], float(rs.randint(1, 4))) + Op("X X", [1, 2], float(rs.randint(1, 4))) + Op("Z", 2, float(rs.randint(-3, 4)))
+    ompo = Mpo(smodel, ops)
+    otens = [np.asarray(m.array) for m in ompo]
+    rec["purification"] = {"kets": chain_of(rho), "ops": [{"d": int(t.shape[-1]), "t": t.astype(int).tolist()} for t in otens],
+                           "ops_integer": bool(all(np.array_equal(t, np.round(t)) for t in otens)),
+                           "pdims": [2] * nsite, "qdims": [2] * nsite, "value": float(np.real(rho.expectation(ompo)))}
+    # maximally entangled ground-surface state of a Holstein-type model, not normalised (entries 1) and normalised
+    nb = [int(rs.choice([2, 3])) for _ in range(2)]
+    hbasis, kinds_me = [], []
+    for i in range(2):
+        hbasis += [ba.BasisSimpleElectron("e%d" % i), ba.BasisSHO("v%d" % i, 1.0, nb[i])]
+        kinds_me += [None, nb[i]]
+    hmodel_ = Model(hbasis, [Op(r"a^\dagger a", "e0", 1.0)])
+    me = MpDm.from_mps(Mps.ground_state(hmodel_, True, normalize=False))
+    men = MpDm.max_entangled_gs(hmodel_)
+    dn = np.asarray(men.todense()) * men.coeff
+    dd = np.asarray(me.todense())
+    cst = float(np.prod([1.0 / np.sqrt(k) for k in kinds_me if k is not None]))
+    rec["max_entangled"] = {"kinds": kinds_me, "pdims": [2 if k is None else k for k in kinds_me], "dense": dd.astype(int).tolist(),
+                            "integer": bool(np.array_equal(dd, np.round(dd))),
+                            "normalised_is_const_times_unnormalised": bool(np.abs(dn - cst * dd).max() <= 1e-14)}
+    ints.append(rec)
+
+emit({"tie": tie, "bad": bad[:10], "nbad": len(bad), "n_oracle": n_or, "ints": ints})
